@@ -59,39 +59,59 @@ def open_is_content_read(fn, t):
     return False
 
 
+def IN_OF(fn):
+    """name of the function an (inlined) body belongs to"""
+    return fn.def_
+
+
 def find_predicates(F):
-    """containment predicate: a bool function of one string that splits it and compares a segment with the constant '..'"""
+    """containment predicate: a bool function of one string that splits it and compares a segment with the constant '..'
+    (the comparison may sit in a private helper or in a closure of the function: an extracted step, a `try_fold` body)"""
+    from ..inline import inlined
     out = []
     for fn in F.rws_fns():
-        if fn.ret != "bool" or fn.nargs != 1 or fn.kind == "Promoted":
+        if fn.ret != "bool" or fn.nargs != 1 or fn.kind in ("Promoted", "Closure"):
             continue
         has_dotdot = False
         has_split = False
         seps = set()
-        for b in fn.blocks:
-            for s in b["stmts"]:
-                if s["k"] == "assign":
-                    for o in s["rv"].get("ops", []):
-                        if o.get("k") == "const" and o.get("v") == "..":
-                            has_dotdot = True
-            t = b["term"]
-            if t["k"] == "call":
-                n = callee_name(t) or ""
-                for a0 in t["args"]:
-                    va = du_of(fn).val_operand(a0)
-                    a = {"k": "const", "v": va[1]} if va[0] == "const" else a0
-                    if a.get("k") == "const":
-                        if a.get("v") == "..":
-                            has_dotdot = True
-                        if isinstance(a.get("v"), str) and a.get("v") in ("/", "\\"):
-                            seps.add(a["v"])
-                        if isinstance(a.get("v"), dict) and a["v"].get("char") in ("/", "\\"):
-                            seps.add(a["v"]["char"])
-                if "::split" in n:
-                    has_split = True
+        bodies = [inlined(F, fn)] + [inlined(F, cf) for cn, cf in F.fns.items() if cn.startswith(fn.def_ + "::{closure") and cf.kind == "Closure"]
+        owners = {fn.def_} | {cn for cn in F.fns if cn.startswith(fn.def_ + "::{closure")}
+        from ..inline import IN_INFO
+        for body in bodies:
+            owners |= set(IN_INFO.get(id(body), {}).get("callees", []))
+        for body in bodies:
+            bdu = du_of(body)
+            for b in body.blocks:
+                for s in b["stmts"]:
+                    if s["k"] == "assign":
+                        for o in s["rv"].get("ops", []):
+                            if o.get("k") == "const" and o.get("v") == "..":
+                                has_dotdot = True
+                            if o.get("k") == "const" and isinstance(o.get("v"), dict) and o["v"].get("char") in ("/", "\\"):
+                                seps.add(o["v"]["char"])
+                t = b["term"]
+                if t["k"] == "call":
+                    n = callee_name(t) or ""
+                    for a0 in t["args"]:
+                        va = bdu.val_operand(a0)
+                        a = {"k": "const", "v": va[1]} if va[0] == "const" else a0
+                        if a.get("k") == "const":
+                            if a.get("v") == "..":
+                                has_dotdot = True
+                            if isinstance(a.get("v"), str) and a.get("v") in ("/", "\\"):
+                                seps.add(a["v"])
+                            if isinstance(a.get("v"), dict) and a["v"].get("char") in ("/", "\\"):
+                                seps.add(a["v"]["char"])
+                    if "::split" in n:
+                        has_split = True
+                if t["k"] == "switch" and t.get("discr_ty") == "char":
+                    for v_, _tb in t["targets"]:
+                        if chr(v_) in ("/", "\\"):
+                            seps.add(chr(v_))
         # constants may sit in promoted bodies
         for pn, pf in F.fns.items():
-            if pn.startswith(fn.def_ + "::{promoted#"):
+            if any(pn.startswith(o_ + "::{promoted#") for o_ in owners):
                 for b in pf.blocks:
                     for s in b["stmts"]:
                         if s["k"] == "assign":
@@ -193,6 +213,13 @@ def run(ctx):
             r5.violate("C01|R5|%s|not-the-argument" % fn.def_, "%s does not walk the segments of its argument" % fn.def_, fn.file, fn.span["line"], fn.def_)
         seen_keys = set()
         for cls, ok, why, line in res:
+            if not ok and why.startswith("UNDECIDED"):
+                # a construct the evaluation does not follow (the depth handed through a helper's Option, an adaptor ...): no verdict on
+                # this path, said so in the evidence; the paths that ARE followed still have to satisfy the rule
+                r5.note("%s, segment %r: %s (line %d)" % (fn.def_, cls, why, line))
+                chk.undecided_extra = getattr(chk, "undecided_extra", []) + ["%s, segment %r: %s" % (fn.def_, cls, why)]
+                r5.floor = 0
+                continue
             r5.instance({"predicate": fn.def_, "segment_class": cls, "path_outcome": why, "line": line}, ok)
             if not ok:
                 key = "C01|R5|%s|%s" % (fn.def_, cls)
@@ -206,8 +233,17 @@ def run(ctx):
     local_all = [n for n in seen_all if n in F.fns]
     cut_sites = set()
     pred_calls = []
+    from ..loops import feasible_reach
+    guard_sets = {}
     for n in local_all:
-        fn = F.fns[n]
+        fn0 = F.fns[n]
+        if fn0.crate != "rws" or fn0.kind == "Promoted":
+            continue
+        # the check may sit in a private helper of the function that goes on to read (`refuse_if_outside(path)?`): judged on the inlined
+        # body (A11; the caller's own block numbers are unchanged, so cut sites still name call-graph edges of the caller)
+        fn = ctx.inl(fn0)
+        if not any(callee_name(t_) in pred_names for _, t_ in fn.calls()):
+            continue
         cfg = cfg_of(fn)
         du = du_of(fn)
         g = guards_of(fn)
@@ -216,6 +252,12 @@ def run(ctx):
             if callee_name(pt) not in pred_names:
                 continue
             dest = pt["dest"]["l"]
+            # what is reachable when the predicate answered "outside" / "inside" (variant- and bool-sensitive walk: `if outside { return
+            # Err }`, `(!outside).then_some(()).ok_or_else(..)?`, a helper's Err return followed by `?` in the caller)
+            out_r = feasible_reach(cfg, start_block=pb, init={("bool", dest): True}) if not pt["dest"]["p"] else None
+            in_r = feasible_reach(cfg, start_block=pb, init={("bool", dest): False}) if not pt["dest"]["p"] else None
+            if out_r is not None and in_r is not None:
+                guard_sets[(n, pb)] = ({b for b in in_r - out_r if cfg.node_dominates(pb, b)}, out_r)
             a = pt["args"][0]
             a_root = None
             if a.get("k") in ("copy", "move"):
@@ -237,11 +279,14 @@ def run(ctx):
                         (fail_edges if truth else pass_edges).append((sb, tb))
                         other_truth = not truth
                         (fail_edges if other_truth else pass_edges).append((sb, st["otherwise"]))
+            guarded = guard_sets.get((n, pb), (set(), set()))[0]
             pred_calls.append((fn, pb, pt, a_root, pass_edges, fail_edges))
             for bid, t in fn.calls():
-                if bid == pb or not pass_edges:
+                if bid == pb or not (pass_edges or guarded):
                     continue
-                if not cfg.edges_dominate(pass_edges, bid):
+                if bid >= len(fn0.blocks):
+                    continue        # a block of an inlined helper: its calls are edges of the helper, judged where the helper is the function
+                if not ((pass_edges and cfg.edges_dominate(pass_edges, bid)) or bid in guarded):
                     continue
                 # some argument of this call descends from the checked value
                 for arg in t["args"]:
@@ -317,13 +362,14 @@ def run(ctx):
     r2b = chk.rule("R2b-no-decoding-after-the-check", "every call that consumes a value descending from the checked path, after the check, is a path-neutral function (tables/path_neutral.json): a percent-decoder or any other rewriting of the path after validation is reported", floor=5)
     neutral = [re.compile(p_) for p_, _ in ctx.table("path_neutral")["neutral"]]
     for fn, pb, pt, a_root, pass_edges, fail_edges in pred_calls:
-        if a_root is None or not pass_edges:
+        guarded = guard_sets.get((IN_OF(fn), pb), (set(), set()))[0]
+        if a_root is None or not (pass_edges or guarded):
             continue
         cfg = cfg_of(fn)
         ld = local_deps(fn)
         seen_callee = {}
         for bid, t in fn.calls():
-            if bid == pb or not cfg.edges_dominate(pass_edges, bid):
+            if bid == pb or not ((pass_edges and cfg.edges_dominate(pass_edges, bid)) or bid in guarded):
                 continue
             uses = [a for a in t["args"] if a.get("k") in ("copy", "move") and a_root in ld.closure(a["l"])]
             if not uses:
@@ -351,10 +397,39 @@ def run(ctx):
         du = du_of(fn)
         ok = False
         status = None
+        regions = []
         for (sb, tb) in fail_edges:
             region = cfg.reachable_from(tb, removed_nodes=[e[1] for e in pass_edges if e[1] != tb])
+            regions.append({b for b in region if cfg.edge_dominates((sb, tb), b)})
+        gs = guard_sets.get((IN_OF(fn), pb))
+        if gs is not None:
+            # blocks only reached when the predicate said "outside"
+            regions.append(gs[1] - (gs[0] | set(feasible_reach(cfg, start_block=pb, init={("bool", pt["dest"]["l"]): False}) or set())))
+        if gs is not None:
+            regions.append(("closures-only", gs[1]))
+        for region in regions:
+            closures_only = isinstance(region, tuple)
+            if closures_only:
+                region = region[1]
             for b in region:
-                if not cfg.edge_dominates((sb, tb), b):
+                # the Error may be built by a closure handed to an error-side combinator on the refusing path (`ok_or_else(|| Error{..})`)
+                tt = cfg.blocks[b]["term"]
+                extra = []
+                if tt["k"] == "call" and (not closures_only or (callee_name(tt) or "").endswith(("::ok_or_else", "::map_err", "::or_else", "::unwrap_or_else"))):
+                    for cn in tt.get("fn_items", []):
+                        cf = F.fns.get(cn)
+                        if cf is not None and cf.kind == "Closure":
+                            cdu = du_of(cf)
+                            for cb in cf.blocks:
+                                for cs in cb["stmts"]:
+                                    if cs["k"] == "assign" and cs["rv"]["k"] == "aggregate" and cs["rv"].get("adt", "").endswith("response::Error"):
+                                        extra.append(cdu.val_operand(cs["rv"]["ops"][0]))
+                for v in extra:
+                    if v[0] == "const" and isinstance(v[1], dict):
+                        status = v[1].get("fields", {}).get("status_code")
+                        if isinstance(status, int) and status >= 400:
+                            ok = True
+                if closures_only:
                     continue
                 for s in cfg.blocks[b]["stmts"]:
                     if s["k"] == "assign" and s["rv"]["k"] == "aggregate" and s["rv"].get("adt", "").endswith("response::Error"):
